@@ -274,6 +274,49 @@ def check(ctx):
         ctx.ob("d.constants", "single-conversion", rets == ["bits_to_time(self.baudrate, bits)"], "Parameters::bits_to_time must delegate to Baudrate::bits_to_time, found %s" % rets, pb.loc(0))
 
 
+    check_rate_table(ctx, P)
+    check_ongoing_tx(ctx, P)
+
+
+def check_rate_table(ctx, P):
+    """d.constants: every bit time is derived from Baudrate::to_rate(); the rate returned for variant B<n> must be n."""
+    f = ctx.need_fn(CR, "Baudrate::to_rate")
+    if f is None:
+        return
+    g = GuardAnalysis(f, P)
+    table = {}
+    for b, i, s in stmts(f):
+        if "a" in s and mk_place(s["a"]) == (0, ()):
+            v = g.tb.rvalue(s["rv"])
+            for fs in g.at(b, i):
+                for k, vs in fs.items():
+                    if k[0] == "discr" and vs[0] == "in" and len(vs[1]) == 1:
+                        table[next(iter(vs[1]))] = v[1] if v[0] == "const" else show(v)
+    bad = {k: v for k, v in table.items() if not (k.startswith("B") and k[1:].isdigit() and v == int(k[1:]))}
+    ctx.ob("d.constants", "baud-rate-table", len(table) >= 11 and not bad, "Baudrate::to_rate returns a rate that is not the variant's bit rate: %s (table %s)" % (bad, table), f.loc(0))
+
+
+def check_ongoing_tx(ctx, P):
+    """b (ongoing transmission): while the PHY (or the own timing estimate) says that this station is still transmitting, the bus
+    activity marker is refreshed; idle and supervision times are measured from the real end of the own transmission."""
+    f = ctx.need_fn(CR, ST + "::check_for_ongoing_transmision")
+    if f is None:
+        return
+    marks = {(b, None): "act" for b, c in call_sites(f, lambda c: callee_is(c, ST + "::mark_bus_activity"))}
+    g = GuardAnalysis(f, P, marks=marks)
+    bad = []
+    nsome = 0
+    for b, i, s in stmts(f):
+        if "a" in s and mk_place(s["a"]) == (0, ()) and s["rv"].get("variant") == "Some":
+            nsome += 1
+            for fs in g.at(b, i):
+                if 0 in g.count_of(fs, "act"):
+                    bad.append(M.fmt_facts(fs)[:160])
+    ctx.ob("b.sync-pause", "ongoing-transmission-refreshes-activity", nsome >= 1 and not bad,
+           "check_for_ongoing_transmision reports an ongoing transmission without refreshing the bus-activity marker: the 33-bit pause and the "
+           "slot supervision would be measured from the computed instead of the real end of the transmission: %s" % "; ".join(bad[:1]), f.loc(0))
+
+
 _g = {}
 
 
@@ -321,7 +364,11 @@ def check_one_reply_and_rx(ctx, P, sites):
                 if not (t_[0] == "agg" and t_[2] == "None"):
                     badc.append(c_["fn"].loc(c_["b"], c_["i"]))
     ctx.ob("a.who", "state-constructed-without-request", ncons >= 2 and not badc, "a station state is constructed with a recorded status request at %s" % badc)
-    # g.rx
+    check_rx(ctx, P)
+
+
+def check_rx(ctx, P):
+    """g.rx (also imported by C11 and C18, whose time-out verdicts depend on the pending-byte bookkeeping)"""
     m = 0
     for f in fdl_fns(P):
         for b, c in call_sites(f, lambda c: callee_is(c, "phy::ProfibusPhy::receive_telegram", "phy::ProfibusPhy::receive_all_telegrams")):
@@ -341,6 +388,17 @@ def check_one_reply_and_rx(ctx, P, sites):
                    "a received telegram is processed without resetting the pending-byte count (mark_rx) on a path returning at %s: bytes of a later, "
                    "still incomplete telegram would not be recognised as bus activity" % sorted(set(bad))[:2], cf.loc(0))
     ctx.anchor("telegram receive callbacks in the active station", m, 4)
+    check_mark_rx_def(ctx, P)
+
+
+def check_mark_rx_def(ctx, P):
+    mr = ctx.need_fn(CR, ST + "::mark_rx")
+    if mr is not None:
+        z = [1 for b, i, s in stmts(mr) if "a" in s and has_field(s["a"], "pending_bytes") and (s["rv"].get("use", {}).get("k") or {}).get("int") == 0]
+        act = [1 for b, c in call_sites(mr, lambda c: callee_is(c, ST + "::mark_bus_activity"))]
+        ctx.ob("g.rx", "mark_rx-definition", bool(z) and bool(act) and not mr.back_edges() and len(mr.return_blocks) == 1,
+               "mark_rx must reset the pending-byte count to 0 and refresh the bus-activity marker", mr.loc(0))
+
 
 
 def g_cache(P, f):
